@@ -80,7 +80,7 @@ fn c04(d: &Digest, s: usize, out: &mut Vec<Violation>) {
     }
     // (b) nothing runs afterwards
     for e in &d.ev[xret..] {
-        if callback_of_store(d, s, e, x.inv) {
+        if callback_of_store(d, s, e, sd.first_shutdown_inv.unwrap_or(x.inv).min(x.inv)) {
             v(out, prop, "b:callback-after-stop", format!("store {s}: {:?} after stop() had returned", e.k));
             break;
         }
@@ -132,7 +132,7 @@ fn c04(d: &Digest, s: usize, out: &mut Vec<Violation>) {
     }
 }
 
-fn prog_has_stalls(p: &Program) -> bool {
+pub fn prog_has_stalls(p: &Program) -> bool {
     p.gates > 0
         || p.subs.iter().any(|s| s.sleep_ms > 0)
         || p.acts.values().any(|a| {
@@ -211,6 +211,21 @@ fn c13_complete(d: &Digest, out: &mut Vec<Violation>) {
         for &ci in &sd.shutdowns {
             let c = &d.calls[ci];
             if matches!(c.op, OpK::Stop { .. } | OpK::DropStore { .. }) && d.timer_in_call(c) {
+                // finding F4, second face: the reducer is stuck sending to an iterator that was
+                // dropped before it was exhausted (its queue never disconnects)
+                let f4 = d.run.out.blocked.iter().any(|b| {
+                    d.iter_chan.iter().any(|(it, ch)| {
+                        BlockOn::from(b.obj) == BlockOn::ChanSend(*ch)
+                            && d.calls.iter().any(|x| {
+                                matches!(x.op, OpK::DropIter { it: i } if i == *it)
+                                    && !d.ev[..x.inv].iter().any(|e| matches!(&e.k, K::NextR { it: i, item: None } if i == it))
+                            })
+                    })
+                });
+                if f4 {
+                    out.push(Violation { prop: "C13", clause: "stop-rescued-by-timeout", detail: format!("store {}: the reducer is blocked on the queue of a dropped iterator; stop() timed out", sd.idx), known: Some("F4") });
+                    return;
+                }
                 // known: an unexhausted, undropped iterator blocks the reducer by design of iter()
                 v(out, "C13", "stop-rescued-by-timeout", format!("store {}: stop() returned only because its timeout expired", sd.idx));
                 return;
